@@ -648,3 +648,171 @@ def contracts():
     c = _c13.add_parameter_contract()
     c.prop = PROP
     return _c11_base6() + [c]
+
+
+# ---------------------------------------------------------------------------------------------
+# Block contract: installing the merged slot values (no crosstalk between Parameter objects)
+# ---------------------------------------------------------------------------------------------
+CROSSTALK_REPLAY = '''import sys, os
+sys.path.insert(0, os.environ.get('PYVC_REPO', '/repo'))
+import param
+bad = []
+def snap(p):
+    return {k: (list(v) if isinstance(v, list) else dict(v) if isinstance(v, dict) else v)
+            for k, v in ((s, getattr(p, s, None)) for s in ('objects', 'names', 'bounds', 'item_type', 'class_'))}
+for kind, parent_kw, child_kw in [
+        (param.Selector, dict(objects=[1, 2], check_on_set=False), dict(default=3)),
+        (param.Selector, dict(objects={'a': 1, 'b': 2}, check_on_set=False), dict(default=3)),
+        (param.ListSelector, dict(default=[1], objects=[1, 2], check_on_set=False), dict(default=[1, 7])),
+        (param.Selector, dict(objects=[1, 2]), dict(default=2)),
+        (param.List, dict(default=[1], item_type=int), dict(default=[2])),
+        (param.Selector, dict(objects=[1, 2], check_on_set=False), dict(default=5, doc='x'))]:
+    A = type('A', (param.Parameterized,), {'s': kind(**parent_kw)})
+    Sib = type('Sib', (A,), {})
+    a = A()
+    before = snap(A.param.s)
+    try:
+        B = type('B', (A,), {'s': kind(**child_kw)})
+    except Exception as e:
+        continue
+    for who, p in (('the parent class', A.param.s), ('a sibling class', Sib.param.s), ('an existing parent instance', a.param.s)):
+        if snap(p) != before:
+            bad.append('declaring a subclass with %s(%r) over %r changed what %s reports: %r -> %r'
+                       % (kind.__name__, child_kw, parent_kw, who, before, snap(p)))
+    bp = B.param.s
+    for slot in ('objects', 'names'):
+        v = getattr(bp, slot, None)
+        if isinstance(v, (list, dict)) and v is getattr(A.param.s, slot, None) and len(v):
+            bad.append('%s of the subclass Parameter IS the parent container (%s %r)' % (slot, kind.__name__, parent_kw))
+if bad:
+    print('REPRODUCED: ' + bad[0]); sys.exit(1)
+print('not reproduced')
+'''
+
+
+def install_slots_contract():
+    """Statements `for slot, value in slot_values.items(): …` up to and including `param._update_state()`
+    of `__param_inheritance`, for ARBITRARY merged values: when `_update_state()` runs (it may mutate a
+    slot value in place, e.g. append a default to a Selector's objects) every inherited MUTABLE
+    container (other than the default) has already been replaced by the Parameter's own shallow copy —
+    so nothing it does reaches the ancestor's Parameter."""
+    import ast as _ast
+    from pyvc.loops import LoopSpec
+    holder = {}
+    QUAL = "ParameterizedMetaclass.__param_inheritance"
+    is_mut = z3.Function("is_mutable_container", vm.V, z3.BoolSort())
+    copyF = z3.Function("shallow_copy_of", vm.V, vm.V)
+
+    def not_default(s):
+        return vm.strv(s) != z3.StringVal("default")
+
+    def configure(I):
+        def setattr_sym(I, st, x, n, v, ctx):
+            st.ghost["slots"] = z3.Store(st.ghost["slots"], I.term(n), I.term(v))
+            return [(st, Conc(None))]
+        I.lib["$setattr_symbolic"] = setattr_sym
+        from pyvc import builtins_lib as bl
+
+        def h_getattr(I, st, fv, args, kwargs, ctx):
+            if isinstance(args[1], Sym) and len(args) == 2:
+                r = z3.Select(st.ghost["slots"], args[1].t)
+                return [(st, Sym(r))]
+            return bl.h_getattr(I, st, fv, args, kwargs, ctx)
+        I.lib["getattr"] = h_getattr
+
+        def is_mutable(I, st, fv, args, kwargs, ctx):
+            return [(st, BoolV(is_mut(I.term(args[0]))))]
+        I.contracts["_is_mutable_container"] = is_mutable
+
+        def copy_copy(I, st, fv, args, kwargs, ctx):
+            r = copyF(I.term(args[0]))
+            I.U.well_typed(r)
+            return [(st, Sym(r))]
+        I.lib["copy.copy"] = copy_copy
+
+        def sym_call(I, st, fv, args, kwargs, ctx):
+            return [(st, Sym(I.U.fresh("computed_slot_value")))]
+        I.lib["$sym_call"] = sym_call
+
+        def update_state(I, st, fv, args, kwargs, ctx):
+            obs = ctx.get("obligations")
+            s = holder["s"]
+            sv, cl = holder["sv"], holder["cl"]
+            own = z3.Select(st.ghost["slots"], s)
+            cond = z3.And(z3.Contains(sv[0], z3.Unit(s)), not_default(s), is_mut(z3.Select(sv[1], s)),
+                          z3.Not(z3.Contains(cl[0], z3.Unit(s))))
+            if obs is not None:
+                obs.append(("when _update_state() runs, an inherited mutable container is already the Parameter's own copy (no crosstalk with the ancestor)",
+                            st.fork(), z3.Implies(cond, own == copyF(z3.Select(sv[1], s)))))
+                obs.append(("… and an immutable / default value is installed as it is",
+                            st.fork(), z3.Implies(z3.And(z3.Contains(sv[0], z3.Unit(s)), z3.Not(z3.Contains(cl[0], z3.Unit(s))),
+                                                         z3.Or(z3.Not(not_default(s)), z3.Not(is_mut(z3.Select(sv[1], s))))),
+                                                  own == z3.Select(sv[1], s))))
+            st.ghost["update_state_calls"] = st.ghost.get("update_state_calls", 0) + 1
+            return [(st, Conc(None))]
+        I.lib["$value_method"] = lambda I, st, name, selfv, args, kwargs, ctx: (update_state(I, st, None, args, kwargs, ctx) if name == "_update_state" else None)
+
+    def setup(I, st):
+        U = I.U
+        param = Sym(U.fresh("param"))
+        s = U.fresh("some_slot")
+        st.pc.append(vm.ty(s) == vm.TAG["str"])
+        SV = I.alloc_dict(st, keys=U.fresh_seq("merged_names"), vals=z3.Const("merged_values", z3.ArraySort(vm.V, vm.V)))
+        CL = I.alloc_dict(st, keys=U.fresh_seq("computed_names"), vals=z3.Const("computed_values", z3.ArraySort(vm.V, vm.V)))
+        hs, hc = st.heap[SV.oid], st.heap[CL.oid]
+        holder.update({"s": s, "sv": (hs.keys, hs.vals), "cl": (hc.keys, hc.vals)})
+        st.ghost["slots"] = z3.Const("slots_before", z3.ArraySort(vm.V, vm.V))
+        holder["slots0"] = st.ghost["slots"]
+        return {"env": {"param": param, "slot_values": SV, "callables": CL}, "symbols": {}}
+
+    def runner(I, st, info, ctx):
+        from contracts.c05 import outcomes
+        module, cname, fd = I.src.locate("%s:%s" % (MOD, QUAL))
+        a = [i for i, x in enumerate(fd.body) if isinstance(x, _ast.For) and _ast.unparse(x.iter) == "slot_values.items()"]
+        b = [i for i, x in enumerate(fd.body) if _ast.unparse(x) == "param._update_state()"]
+        if len(a) != 1 or len(b) != 1 or b[0] <= a[0]:
+            raise OutOfReach("the slot-installation block was not found in __param_inheritance")
+        st.env = dict(info["env"])
+        c = dict(ctx)
+        c.update({"module": module, "owner": cname, "qual": QUAL, "fnode": fd})
+        return outcomes(I.exec_block(fd.body[a[0]: b[0] + 1], st, c))
+
+    def inv1(I, st, pre):
+        s = holder["s"]
+        sv = holder["sv"]
+        seen = z3.Contains(pre.seq, z3.Unit(s))
+        v = z3.Select(sv[1], s)
+        want = z3.If(z3.And(not_default(s), is_mut(v)), copyF(v), v)
+        return z3.Select(st.ghost["slots"], s) == z3.If(seen, want, z3.Select(holder["slots0"], s))
+
+    def inv2(I, st, pre):
+        s = holder["s"]
+        sv = holder["sv"]
+        v = z3.Select(sv[1], s)
+        want = z3.If(z3.And(not_default(s), is_mut(v)), copyF(v), v)
+        return z3.Implies(z3.And(z3.Contains(sv[0], z3.Unit(s)), z3.Not(z3.Contains(holder["cl"][0], z3.Unit(s)))),
+                          z3.Select(st.ghost["slots"], s) == want)
+
+    def havoc(I, st):
+        st.ghost["slots"] = z3.Const("slots!%d" % I.new_oid(), z3.ArraySort(vm.V, vm.V))
+
+    def post(I, info, st, oc):
+        if isinstance(oc, Raise):
+            return [("does-not-raise", z3.BoolVal(False))]
+        return [("_update_state() runs exactly once, after the slots are installed", z3.BoolVal(st.ghost.get("update_state_calls", 0) == 1))]
+    loops = {(QUAL, "slot_values.items()"): LoopSpec("slot_values.items()", inv=inv1, heap=havoc, name="install-merged-values"),
+             (QUAL, "callables.items()"): LoopSpec("callables.items()", inv=inv2, heap=havoc, name="install-computed-values",
+                                                         elem_facts=lambda I, st, x: [z3.Contains(holder["cl"][0], z3.Unit(x))])}
+    c = FunctionContract("%s:%s" % (MOD, QUAL), PROP, setup, post, configure=configure, loops=loops,
+                         name="__param_inheritance[installing the merged slot values]")
+    c.static_replay = CROSSTALK_REPLAY
+    c.static_witness = "a subclass re-declares a Selector / ListSelector whose default is not among the inherited objects (check_on_set=False): _update_state() appends it"
+    c.runner = runner
+    return c
+
+
+_c11_base7 = contracts
+
+
+def contracts():
+    return _c11_base7() + [install_slots_contract()]
